@@ -11,7 +11,7 @@ import (
 // RaceReport is one parsed ThreadSanitizer report.
 type RaceReport struct {
 	Accesses []RaceAccess `json:"accesses"`
-	Library  bool         `json:"library"` // at least one frame in pkg/...
+	Library  bool         `json:"library"` // at least one access whose innermost non-std frame is library code (pkg/..., cmd/...)
 	Sig      string       `json:"sig"`
 	Text     string       `json:"text"`
 }
@@ -20,6 +20,11 @@ type RaceAccess struct {
 	Kind   string   `json:"kind"`  // read | write | atomic read ...
 	Frame  string   `json:"frame"` // innermost library frame "func file:line"
 	Frames []string `json:"frames,omitempty"`
+	// Owner is who issued the access: the innermost frame that is not standard
+	// library or runtime code is either library code ("lib") or simulator /
+	// harness code ("sim"). A race both of whose accesses were issued by the
+	// simulator's own code is a harness fault, whatever called into it.
+	Owner string `json:"owner,omitempty"`
 }
 
 var (
@@ -75,12 +80,20 @@ func parseRaceReports(text string) []RaceReport {
 			if m := frameLoc.FindStringSubmatch(l); m != nil {
 				rel, lib := libRel(m[1])
 				fr := shortFunc(pendingFunc) + " " + rel + ":" + m[2]
+				if cur.Owner == "" && rel != m[1] {
+					// first frame inside the scratch copy
+					if lib {
+						cur.Owner = "lib"
+						rep.Library = true
+					} else {
+						cur.Owner = "sim"
+					}
+				}
 				if lib {
 					cur.Frames = append(cur.Frames, fr)
 					if cur.Frame == "" {
 						cur.Frame = fr
 					}
-					rep.Library = true
 				}
 				continue
 			}
